@@ -1241,8 +1241,17 @@ pub async fn run(ctx: &Ctx) {
                     arng.fill(&mut itx);
                     let ind = ht::stun(0x0017, &itx, &[(0x0012, ht::xor_addr(from)), (0x0013, bytes.clone())]);
                     let to = turn_client.lock().unwrap().unwrap();
-                    ctx.ev("attack travels through the TURN relay", &format!("peer {from} -> relayed address -> Data indication {s_addr} -> {to}"));
-                    ctx.net.inject(s_addr, to, &ind);
+                    if i % 2 == 0 {
+                        ctx.ev("attack travels through the TURN relay", &format!("peer {from} -> relayed address -> Data indication {s_addr} -> {to}"));
+                        ctx.net.inject(s_addr, to, &ind);
+                    } else {
+                        // the same message, bare, from the attacker's (or the server's spoofed) address straight to the TURN
+                        // client's own socket: the client does not look at the source of what it receives there
+                        let src = if i % 4 == 1 { from } else { s_addr };
+                        ctx.ev("attack sent bare to the TURN client socket", &format!("{src} -> {to}"));
+                        ctx.net.inject(src, to, &bytes);
+                        ctx.stat("probe.bare_on_turn_socket", 1);
+                    }
                     let mut l = led.lock().unwrap();
                     if is_req {
                         l.unauth_req_delivered += 1;
